@@ -133,8 +133,8 @@ func judgeReports(c battleCase, rec *hx.Rec) string {
 		for _, r := range l.loose {
 			if r.Type == gmars.WarriorSpawn {
 				nspawn++
-				if r.WarriorIndex != i || int(r.Address) != c.Offs[i]%m {
-					return fmt.Sprintf("spawn of warrior %d at %d (mod %d = %d) reported as %+v", i, c.Offs[i], m, c.Offs[i]%m, r)
+				if r.WarriorIndex != i || int(r.Address) != offMod(c.Offs[i], m) {
+					return fmt.Sprintf("spawn of warrior %d at %d (mod %d = %d) reported as %+v", i, c.Offs[i], m, offMod(c.Offs[i], m), r)
 				}
 			}
 		}
@@ -142,7 +142,7 @@ func judgeReports(c battleCase, rec *hx.Rec) string {
 			return fmt.Sprintf("spawn of warrior %d produced %d WarriorSpawn reports", i, nspawn)
 		}
 		for k := range w.Code {
-			set((c.Offs[i]+k)%m, gmars.CoreWritten, i)
+			set((offMod(c.Offs[i], m)+k)%m, gmars.CoreWritten, i)
 		}
 	}
 	if l.bad != "" {
